@@ -44,6 +44,8 @@ func c17Alphabet() []c17Patch {
 	k1 := fx.KeyEntry("k1", kA, []interface{}{"authentication"})
 	k1b := fx.KeyEntry("k1", kB, []interface{}{"assertionMethod"})
 	k2 := fx.KeyEntry("k2", kB, nil)
+	k1c := map[string]interface{}{"id": "k1", "type": "Ed25519VerificationKey2018", "publicKeyBase58": "3M5RCDjPTWPkKSN3sxUmmMqHbmRPegYP1tjcKyrDbt9J"} // same id, fewer / other members
+	s1c := map[string]interface{}{"id": "s1", "type": "Plain", "serviceEndpoint": "https://example.com/1c"}
 	s1 := fx.ServiceEntry("s1", "https://example.com/1")
 	s1b := map[string]interface{}{"id": "s1", "type": "Other", "serviceEndpoint": []interface{}{"https://example.com/1b"}, "extra": true}
 	s2 := fx.ServiceEntry("s2", "https://example.com/2")
@@ -66,9 +68,9 @@ func c17Alphabet() []c17Patch {
 		return j(map[string]interface{}{"action": "remove-also-known-as", "uris": us})
 	}
 	return []c17Patch{
-		{"+k1", addK(k1)}, {"+k1*", addK(k1b)}, {"+k2", addK(k2)}, {"+{k1,k2}", addK(k1, k2)}, {"+{k2,k1*}", addK(k2, k1b)},
+		{"+k1", addK(k1)}, {"+k1*", addK(k1b)}, {"+k1-", addK(k1c)}, {"+k2", addK(k2)}, {"+{k1,k2}", addK(k1, k2)}, {"+{k2,k1*}", addK(k2, k1b)},
 		{"-k1", rmK("k1")}, {"-k9", rmK("k9")}, {"-{k1,k2}", rmK("k1", "k2")},
-		{"+s1", addS(s1)}, {"+s1*", addS(s1b)}, {"+s2", addS(s2)}, {"+{s1,s2}", addS(s1, s2)},
+		{"+s1", addS(s1)}, {"+s1*", addS(s1b)}, {"+s1-", addS(s1c)}, {"+s2", addS(s2)}, {"+{s1,s2}", addS(s1, s2)},
 		{"-s1", rmS("s1")}, {"-s9", rmS("s9")}, {"-{s1,s2}", rmS("s1", "s2")},
 		{"+a1", addA("https://a1.example")}, {"+a2", addA("https://a2.example")}, {"+{a1,a2}", addA("https://a1.example", "https://a2.example")},
 		{"-a1", rmA("https://a1.example")}, {"-a9", rmA("https://a9.example")},
@@ -85,7 +87,7 @@ func c17Alphabet() []c17Patch {
 
 func c17(r *hx.Run) {
 	fx.Quiet()
-	r.Rule = "breadth-first search from the empty document: a transition applies one patch of a 29-patch alphabet (add/replace-in-place/remove of 2 keys, 2 services, 2 aliases, replace, JSON patches, 4 failing patches) through the real DocumentComposer; states are canonical documents, explored to depth 3 (thorough 4); in every state every patch list of length <=2 (thorough 3) is applied and checked for purity (input equals a snapshot, also after the result is mutated), determinism, atomicity (failing member => (nil, err); otherwise equal to the fold of singletons) and equality with the ordered-map reference ref/doc; every reachable document with non-empty sections must survive PatchesFromDocument -> ApplyPatches({}). Non-trivial: distinct (state, list) pairs whose reference result differs from the input state or fails."
+	r.Rule = "breadth-first search from the empty document: a transition applies one patch of a 31-patch alphabet (add/replace-in-place/remove of 2 keys, 2 services, 2 aliases, replace, JSON patches, 4 failing patches) through the real DocumentComposer; states are canonical documents, explored to depth 3 (thorough 4); in every state every patch list of length <=2 (thorough 3) is applied and checked for purity (input equals a snapshot, also after the result is mutated), determinism, atomicity (failing member => (nil, err); otherwise equal to the fold of singletons) and equality with the ordered-map reference ref/doc; every reachable document with non-empty sections must survive PatchesFromDocument -> ApplyPatches({}). Non-trivial: distinct (state, list) pairs whose reference result differs from the input state or fails."
 	alpha := c17Alphabet()
 	composer := doccomposer.New()
 	maxDepth := 3
